@@ -712,7 +712,7 @@ func runSession(t *testing.T, cfg *sessCfg, job *sessJob, rng *mrand.Rand, sched
 			}
 			prs := []map[string]any{}
 			for _, p := range s.Pairs {
-				prs = append(prs, map[string]any{"id": p.ID, "l": sym(p.L), "r": sym(p.R), "rt": p.RTyp, "st": p.St, "nom": p.Nom, "nos": p.Nos, "reqs": p.Reqs,
+				prs = append(prs, map[string]any{"id": p.ID, "l": sym(p.L), "r": sym(p.R), "rt": p.RTyp, "byId": p.ByID, "st": p.St, "nom": p.Nom, "nos": p.Nos, "reqs": p.Reqs,
 					"pr": []uint64{p.Prio >> 40, (p.Prio >> 20) & 0xfffff, p.Prio & 0xfffff}})
 			}
 			pend := []map[string]any{}
